@@ -453,14 +453,41 @@ def run_loop(ctx, r):
 				sent.append((kind, payload[:60]))
 				ctx.count("loop_inputs")
 				ctx.seen(hash(("l", payload)))
-				# wait (wall clock, generous) until the loop has consumed it
+				# wait until the loop has consumed it: decided on the loop's own steps - select() reporting the socket
+				# readable thousands of times while the datagram stays unread is a loop that does not serve it; the
+				# wall clock is only a generous backstop
 				end = time.time() + 120
+				r0 = vs.ready_returns
+				spinning = False
 				while th.is_alive() and time.time() < end:
 					if vs.idle.is_set() and not any(s.q for s in (node.trx.ctrl_if.sock, node.trx.data_if.sock)):
 						break
+					if vs.ready_returns - r0 > 5000 and any(s.q for s in (node.trx.ctrl_if.sock, node.trx.data_if.sock)):
+						spinning = True
+						break
+					watched = getattr(vs, "last", None)
+					if vs.idle.is_set() and watched is not None:
+						unwatched = [s for s in (node.trx.ctrl_if.sock, node.trx.data_if.sock) if s.q and not any(s is x for x in watched)]
+						if unwatched:
+							spinning = "blind"
+							break
 					time.sleep(0.001)
+				if spinning == "blind":
+					ctx.violation("loop", {"last_inputs": [(k2, p.hex()) for k2, p in sent[-3:]]},
+						what = "fake_trx's main loop waits in select() without the %s socket of a transceiver in its list: "
+							"datagrams sent there are never served" % ("control" if node.trx.ctrl_if.sock.q else "data"))
+					box["spinning"] = True
+					break
+				if spinning:
+					ctx.violation("loop", {"last_inputs": [(k2, p.hex()) for k2, p in sent[-3:]]},
+						what = "fake_trx's main loop was told 5000 times that a socket is readable and never read the datagram "
+							"(%s socket): it spins without serving" % ("control" if node.trx.ctrl_if.sock.q else "data"))
+					box["spinning"] = True
+					break
 				if not th.is_alive():
 					break
+			if box.get("spinning"):
+				return
 			if not th.is_alive() and "error" in box:
 				e = box["error"]
 				ctx.violation("loop", {"last_inputs": [(k, p.hex()) for k, p in sent[-3:]], "traceback": tb(e)},
